@@ -49,6 +49,21 @@ CHECKS = {
             'include_scale masks (cotangents fed into every returned lowpass) and every requires-grad pattern; every '
             'FWD_J*/INV_J*.backward invocation is checked with the adjoint identity <Lx,g>=<x,backward(g)> using the '
             'Function forward body without autograd.', '5/C06'),
+    'C07': ('ATen dispatch-level taint/linearity monitor on the real op stream + superposition, T(0), batched-vs-per-slice and leak monitors',
+            'For DWT 1-D/2-D forward+inverse, SWT and DTCWT forward+inverse: dynamic taint tracking certifies every '
+            'operator consuming input data linear and the control flow input-independent (a refuted certificate is a '
+            'violation); superposition with random scalars, bit-zero T(0), slice-by-slice equality for N in {1,2,3,5}, '
+            'C in {1,2,3,4,7} and a leak test with re-randomised neighbours.', '5/C07'),
+    'C15': ('history recording at the client boundary checked offline against a stateless reference table built in fresh processes; attached M-ARG/M-INV/M-CACHE/M-DISP.write monitors; 1..16 threads with sys.monitoring yield and fault injection',
+            'Every call of seeded multi-threaded histories over a near-colliding pool of configurations (threads share '
+            'module instances; pre-emption injected at library source lines; exceptions injected in dedicated '
+            'histories) must return bit-for-bit what the same call returns in its own fresh process; all arguments, '
+            'buffers and cached tables must be unchanged across every call and no mutating ATen op may write into them.', '5/C15'),
+    'C16': ('dtype postcondition + ATen precision monitor on every call, f32-vs-f64 differential with gain-scaled bound, converted-module and strided-view metamorphic monitors',
+            'All transforms incl. inverses, SWT and scattering: outputs keep the input dtype, no ATen op inside a call '
+            'produces a narrower float, float32 results within 64*eps32*(gain*max|x|+bias) of float64, .float()/.double() '
+            'modules behave like natively built ones, six classes of non-contiguous inputs equal their contiguous copies, '
+            'None levels work in both precisions.', '5/C16'),
     'C08': ('differential runtime monitor vs NumPy dtcwt + defining formulas (independent reference model), shape and non-negativity postconditions',
             'ScatLayer/ScatLayerj2 outputs for 5 filter families (band-pass included), 6 bias values incl. 0, colour '
             'on/off, sizes 2..34 incl. odd / non-multiple-of-8, 8 input classes are compared with the composition of '
@@ -105,7 +120,7 @@ def main():
     na = list(NOT_APPLICABLE)
     for p in allp:
         if p not in CHECKS and p not in [n['property_id'] for n in na]:
-            na.append({'property_id': p, 'reason': 'check under construction in this session (not a technique limitation); see DESIGN.md section 5'})
+            raise SystemExit('property %s neither claimed nor listed as not applicable' % p)
     m = {
         'version': 1,
         'setup_cmd': '%s -c "import sys; sys.path.insert(0, \'/verif\'); from vf import core; core.ensure_deps()"' % PY,
